@@ -283,6 +283,7 @@ def judge_grid(out, pre, esfx, trees, wtree, decl, tenv, xs, ws, rdom, got, exc,
     if math.isnan(d0) or math.isnan(d1):
         out.viol.append((f"{kb}:domain-nan", f"domain is {(d0, d1)!r}", dict(case, domain=[d0, d1])))
     else:
+        end_env = {}
         if expect_dom is None:
             # ordered image of (rule domain) cut to the domain of use.  An end that is a reference end
             # point of the map goes to the corresponding codomain end (TLC: EndPoints); any other end
@@ -298,6 +299,8 @@ def judge_grid(out, pre, esfx, trees, wtree, decl, tenv, xs, ws, rdom, got, exc,
                     v = limit_at_inf(trees["F"], tenv)
                 else:
                     v = ev(trees["F"], dict(tenv, x=e_))
+                    if v is not None:
+                        end_env[v] = dict(tenv, x=e_)   # an evaluated end: judged with the tree's error budget
                 ends.append(v)
             if any(v is None for v in ends):
                 out.mach.append(f"{kb}: cannot evaluate the image of the domain end for {case}")
@@ -311,7 +314,14 @@ def judge_grid(out, pre, esfx, trees, wtree, decl, tenv, xs, ws, rdom, got, exc,
             want.append(fv)
         if not (d0 <= d1):
             out.viol.append((f"{kb}:domain-order", f"domain {(d0, d1)!r} is not ascending", dict(case, domain=[d0, d1])))
-        good = all(rtx.judge_value(o, rtx._mpf(w))[0] for o, w in zip((d0, d1), want))
+        good = True
+        for o, w, v in zip((d0, d1), want, expect_dom):
+            envv = end_env.get(v) if not (math.isinf(float(v))) else None
+            if envv is not None:
+                # same conditioning-aware judgement as for the nodes (e.g. Knowles near x = -1: log(1 - eps))
+                good = good and rtx.judge(o, trees["F"], envv, "x")[0]
+            else:
+                good = good and rtx.judge_value(o, rtx._mpf(w))[0]
         if not good:
             out.viol.append((f"{kb}:domain", f"domain is {(d0, d1)!r}, the ordered image of the rule's domain {tuple(rdom)!r} is {tuple(want)!r} (trim_inf={trim})", dict(case, domain=[d0, d1], expected=want)))
         slack = 1e-9
